@@ -156,13 +156,27 @@ Eval == /\ e.ev = "eval" /\ Common
 
 Collect == /\ e.ev = "collect" /\ Common /\ Pass
 
-Other == /\ e.ev \in {"end", "panic", "hang", "mutate", "args", "note", "crash", "fault", "corrupt", "shape", "names"} /\ Common /\ Pass
+Other == /\ e.ev \in {"end", "panic", "hang", "mutate", "args", "note", "crash", "fault", "corrupt", "shape", "names", "xput", "xdel", "xflush"} /\ Common /\ Pass
 
 \* FlushAll / FlushAllAndCommit / Commit
 FlushEv == /\ e.ev = "flush" /\ Common
            /\ unfl' = IF e.c = "ok" /\ e.what \in {"all", "allcommit"} THEN {} ELSE unfl
            /\ due' = FALSE
            /\ UNCHANGED <<store, hdr, lastObs, reopened, hands, wpre, wev, slept>>
+
+\* Drop() then Create on the same handle: nothing of the dropped database is left
+DropEv == /\ e.ev = "drop" /\ Common
+          /\ store' = Empty /\ reopened' = FALSE
+          /\ hands' = [h \in DOMAIN hands |-> [hands[h] EXCEPT !.gone = @ \cup DOMAIN store]]
+          /\ wpre' = store /\ wev' = l /\ unfl' = {} /\ due' = FALSE /\ slept' = 0
+          /\ hdr' = IF e.cc = "ok" THEN [hdr EXCEPT !.cfg = e.cfg] ELSE hdr
+          /\ UNCHANGED lastObs
+
+\* Flush(o) / FlushAndCommit(o): the accepted version of one object is on disk afterwards
+FlushOneEv == /\ e.ev = "flushone" /\ Common
+              /\ unfl' = IF e.c = "ok" THEN unfl \ {e.slot} ELSE unfl
+              /\ due' = FALSE
+              /\ UNCHANGED <<store, hdr, lastObs, reopened, hands, wpre, wev, slept>>
 
 \* one poll period of the background flusher elapses with no foreground call.  The flusher wakes
 \* up, and flushes if the pending count has reached the threshold or the timeout has elapsed.
@@ -191,7 +205,7 @@ AfterDamage(S, d) ==
 DamageEv == /\ e.ev = "damage" /\ Common
             /\ Write(AfterDamage(store, e))
 
-Next == l <= Len(Trace) /\ (Reset \/ Hdr \/ Put \/ Many \/ Del \/ DelAll \/ DelSearch \/ Reopen \/ Obs \/ Eval \/ Collect \/ Other \/ DamageEv \/ FlushEv \/ TickEv \/ SwitchEv)
+Next == l <= Len(Trace) /\ (Reset \/ Hdr \/ Put \/ Many \/ Del \/ DelAll \/ DelSearch \/ Reopen \/ Obs \/ Eval \/ Collect \/ Other \/ DamageEv \/ FlushEv \/ FlushOneEv \/ DropEv \/ TickEv \/ SwitchEv)
 
 Spec == Init /\ [][Next]_vars
 
@@ -218,6 +232,7 @@ ReadsOK(o, S) ==
   /\ Seq2Set(AllSlots(o)) = DOMAIN S
   /\ \A i \in 1..Len(o.all) : o.all[i][1] \in DOMAIN S => o.recs[o.all[i][2]] = S[o.all[i][1]]
   /\ o.count = Cardinality(DOMAIN S)
+  /\ "all2" \in DOMAIN o => (o.all2_c = "ok" /\ o.all2 = o.all)        \* AssignAll: the same listing, same contents
   /\ \A i \in 1..Len(o.get) :
        LET g == o.get[i] IN
        IF g.slot \in DOMAIN S
@@ -278,6 +293,62 @@ SameObs(a, b) ==
                  [j \in 1..Len(x[3]) |-> AllMap(a)[x[3][j][1]][x[1][Len(x[1])][2]]]
                    = [j \in 1..Len(y[3]) |-> AllMap(b)[y[3][j][1]][y[1][Len(y[1])][2]]]
   /\ ("aidx" \in DOMAIN a /\ "aidx" \in DOMAIN b) => a.aidx = b.aidx
+  /\ ("x" \in DOMAIN a /\ "x" \in DOMAIN b) => (a.x.all = b.x.all /\ a.x.count = b.x.count /\ a.x.keys = b.x.keys /\ a.x.get = b.x.get)
+
+-----------------------------------------------------------------------------
+(* A SECOND COLLECTION in the same database (events xput / xdel / xflush; sweeps carry "x").  Its    *)
+(* abstract state is a function of the consumed prefix of the current test, so it needs no variable: *)
+(* slot -> <<key, value>>, key unique.  It is specified like the first one, in small: reads = the    *)
+(* accepted writes, unique <=> conflict, nothing pending once Close / FlushAllAndCommit returned -   *)
+(* and the two collections never disturb each other (the first one's invariants are evaluated on     *)
+(* the same traces, unchanged).                                                                      *)
+RECURSIVE XStoreAt(_)
+XStoreAt(i) ==
+  IF i = 0 \/ Trace[i].ev = "reset" THEN Empty
+  ELSE LET S == XStoreAt(i - 1)  x == Trace[i] IN
+       CASE x.ev = "xput" /\ x.c = "ok" -> Upd(S, x.slot, <<x.k, x.a>>)
+         [] x.ev = "xdel" /\ x.c = "ok" -> Rem(S, {x.slot})
+         [] x.ev = "drop" -> Empty                                          \* Drop removes every collection
+         [] OTHER -> S
+\* may a write of the second collection still be pending after event i ?
+RECURSIVE XPending(_)
+XPending(i) ==
+  IF i = 0 \/ Trace[i].ev = "reset" THEN FALSE
+  ELSE LET x == Trace[i] IN
+       CASE x.ev \in {"xput", "xdel"} /\ x.c = "ok" -> hdr.cfg.async
+         [] x.ev = "reopen" /\ x.close -> FALSE
+         [] x.ev = "drop" -> FALSE
+         [] x.ev = "xflush" /\ x.c = "ok" /\ x.what # "all" -> FALSE        \* (FlushAll writes the files but does not commit the index)
+         [] OTHER -> XPending(i - 1)
+XConflict(S, u, k) == \E w \in DOMAIN S : w # u /\ S[w][1] = k
+XMap(rows)   == [u \in {rows[i][1] : i \in 1..Len(rows)} |-> LET i == CHOOSE i \in 1..Len(rows) : rows[i][1] = u IN <<rows[i][2], rows[i][3]>>]
+XFileMap(fs) == [u \in {fs[i][1] : i \in 1..Len(fs)} |-> LET i == CHOOSE i \in 1..Len(fs) : fs[i][1] = u IN <<fs[i][3], fs[i][4]>>]
+XReadsOK(x, S) ==
+  /\ x.all_c = "ok" /\ x.count_c = "ok" /\ x.keys_c = "ok"
+  /\ NoDup([i \in 1..Len(x.all) |-> x.all[i][1]]) /\ XMap(x.all) = S /\ x.count = Cardinality(DOMAIN S)
+  /\ Len(x.keys) = Cardinality(DOMAIN S) /\ {x.keys[i] : i \in 1..Len(x.keys)} = {S[u][1] : u \in DOMAIN S}
+  /\ \A i \in 1..Len(x.get) : IF x.get[i][1] \in DOMAIN S THEN x.get[i][2] = "ok" /\ <<x.get[i][3], x.get[i][4]>> = S[x.get[i][1]]
+                                                           ELSE x.get[i][2] # "ok"
+\* the directory of the second collection holds exactly S, one readable file per object, and the committed index lists them
+XDirOK(d, S) ==
+  /\ d.exists /\ d.schema /\ "schema_err" \notin DOMAIN d /\ Len(d.extra) = 0
+  /\ NoDup([i \in 1..Len(d.files) |-> d.files[i][1]]) /\ \A i \in 1..Len(d.files) : d.files[i][2] = "ok"
+  /\ XFileMap(d.files) = S
+  /\ Len(d.sidx) = Cardinality(DOMAIN S) /\ {d.sidx[i] : i \in 1..Len(d.sidx)} = DOMAIN S
+\* (asynchronous, writes pending) nothing deleted or never accepted is on disk
+XNoResurrection(d, S) == \A i \in 1..Len(d.files) : d.files[i][1] \in DOMAIN S /\ d.files[i][2] = "ok"
+Conf_X ==
+  At =>
+  /\ (E.ev = "obs" /\ "x" \in DOMAIN E) =>
+        /\ XReadsOK(E.x, XStoreAt(l - 1))
+        /\ IF XPending(l - 1) THEN XNoResurrection(E.x.dir, XStoreAt(l - 1)) ELSE XDirOK(E.x.dir, XStoreAt(l - 1))
+  /\ E.ev = "xput" => /\ E.c \in {"ok", "unique"}
+                       /\ (E.c = "unique") <=> XConflict(XStoreAt(l - 2), E.slot, E.k)
+  /\ E.ev = "xdel" => E.c \in {"ok", "unbound"}
+  \* FlushAll: every accepted object is on disk; FlushAllAndCommit and Close: and the index is committed
+  /\ E.ev = "xflush" => /\ E.c = "ok" /\ XFileMap(E.xdir.files) = XStoreAt(l - 1)
+                         /\ E.what # "all" => XDirOK(E.xdir, XStoreAt(l - 1))
+  /\ (E.ev = "reopen" /\ E.close /\ "xdir" \in DOMAIN E) => XDirOK(E.xdir, XStoreAt(l - 1))
 
 -----------------------------------------------------------------------------
 (* One invariant per property                                               *)
@@ -422,7 +493,7 @@ Conf_C14 ==
 DirOK(o, S) ==
   LET d == o.dir IN
   /\ d.exists /\ d.schema /\ "schema_err" \notin DOMAIN d
-  /\ d.colls = <<d.want>>                               \* no other directory, the expected name
+  /\ d.colls = (IF "xwant" \in DOMAIN d THEN <<d.xwant, d.want>> ELSE <<d.want>>)   \* no other directory, the expected name(s)
   /\ Len(d.extra) = 0                                   \* nothing but object files and the schema
   /\ NoDup([i \in 1..Len(d.files) |-> d.files[i][1]])
   /\ {d.files[i][1] : i \in 1..Len(d.files)} = DOMAIN S
@@ -570,14 +641,29 @@ FaultOK(E_, Sm) ==
       \* in memory and on disk; a fresh handle then loads the old index.  What is still demanded:
       \* readable files, each object old or new, Repair succeeds and everything then agrees with the
       \* files up to the stale indexed values of rewritten objects.
+      \* The stale values are those of the state BEFORE the interrupted call (wpre): a batch whose objects
+      \* were all written and whose commit failed reports n objects and an error, so Sm already holds them.
+      Pre      == IF wev > 0 THEN wpre ELSE Sm
       devshape == /\ "CommitFault" \in Dev
-                  /\ Readable(o1) /\ 0 \notin DOMAIN FM(o1) /\ OldOrNew(FM(o1), Sm, Sp)
+                  /\ Readable(o1) /\ 0 \notin DOMAIN FM(o1) /\ OldOrNew(FM(o1), Pre, Sp)
                   /\ LoadFine(E_) /\ E_.repair = "ok" /\ o2.control = "ok" /\ FM(o2) = FM(o1)
-                  /\ AgreeStale(o2, FM(o2), Sm) /\ E_.load3 = "ok" /\ o3.control = "ok" /\ AgreeStale(o3, FM(o2), Sm)
+                  /\ AgreeStale(o2, FM(o2), Pre) /\ E_.load3 = "ok" /\ o3.control = "ok" /\ AgreeStale(o3, FM(o2), Pre)
   IN /\ E_.c # "panic" /\ "panic" \notin DOMAIN o0 /\ "panic" \notin DOMAIN o1
      /\ silent \/ (noticed /\ restored) \/ devshape
 Conf_C06F ==
   At => (E.ev = "fault" => (E.c # "ok" => FaultOK(E, store)))
+
+\* Drop (then Create on the same handle): the calls succeed; while nothing exists no object is reported; afterwards the
+\* directory holds the fresh schema and no object file.  (What later sweeps, flushes and Close must then show - an
+\* empty collection in which every value is free again, nothing coming back on disk - is demanded by the ordinary
+\* invariants, evaluated against the emptied abstract map.)
+Conf_Drop ==
+  At => (E.ev = "drop" =>
+          /\ E.c = "ok" /\ E.cc = "ok"
+          /\ E.probe.count_c = "ok" => E.probe.count = 0
+          /\ E.probe.all_c = "ok" => E.probe.all_n = 0
+          /\ E.dir.exists /\ E.dir.schema /\ Len(E.dir.files) = 0 /\ Len(E.dir.extra) = 0 /\ Len(E.dir.sidx) = 0
+          /\ "xdir" \in DOMAIN E => XDirOK(E.xdir, Empty))
 
 \* C19 (file part): whatever a file of the collection directory contains, calls return; none panics
 Conf_C19F ==
@@ -605,6 +691,12 @@ Conf_C10 ==
         /\ E.what \in {"all", "allcommit"} => AllOnDisk(E.dir, E.recs)
         /\ E.what \in {"allcommit", "commit"} => Committed(E.dir)
   /\ (E.ev = "reopen" /\ E.close /\ "dir" \in DOMAIN E) => (E.c = "ok" /\ AllOnDisk(E.dir, E.recs) /\ Committed(E.dir))
+  \* Flush(o) / FlushAndCommit(o): whatever the caller's object holds, what reaches the disk is the accepted version of
+  \* that object (unfl no longer contains it) and nothing else: no file for an object that is not stored
+  /\ E.ev = "flushone" =>
+        /\ E.c = "ok" /\ NoResurrection(E.dir, E.recs)
+        /\ E.slot \in DOMAIN store => (E.slot \in DOMAIN DirMap(E.dir, E.recs) /\ DirMap(E.dir, E.recs)[E.slot] = store[E.slot])
+        /\ E.commit => Committed(E.dir)
 
 \* C17 (settings part): Create with a compatible schema is idempotent, preserves data, and may switch
 \* cache / asynchronous writes at any time without losing pending writes or disturbing the process
